@@ -36,7 +36,7 @@ open AmVerif AmVerif.Leb AmVerif.Chunk AmVerif.ChangeCodec AmVerif.Hexane
 /-- First sentence, compressed bytes: what `Change::bytes()` writes for a change with body `body` —
     magic, the change's checksum, type 2, and bytes `z` that inflate to `body` — is read by
     `Change::from_bytes` exactly like the plain chunk: same outcome, whatever it is. -/
-theorem C18_compressed (limit : Nat) (z body : Bytes) (hinf : Inflate.inflate z = some body)
+theorem C18_compressed (limit : Nat) (z body : Bytes) (hinf : Inflate.inflateExact z = some body)
     (hz : z.length < 2 ^ 64) (hb : body.length < 2 ^ 64) :
     fromBytes limit (encodeChunkWith ((chunkHash 1 body).take 4) 2 z) = fromBytes limit (encodeChunk 1 body) :=
   fromBytes_compressed limit z body hinf hz hb
@@ -44,7 +44,7 @@ theorem C18_compressed (limit : Nat) (z body : Bytes) (hinf : Inflate.inflate z 
 /-- … hence an equal change with the same hash (every field of the stored change, the hash and the
     op rows included) -/
 theorem C18_compressed_equal_change (limit : Nat) (z body : Bytes) (s : ChangeCodec.Stored)
-    (hinf : Inflate.inflate z = some body) (hz : z.length < 2 ^ 64) (hb : body.length < 2 ^ 64)
+    (hinf : Inflate.inflateExact z = some body) (hz : z.length < 2 ^ 64) (hb : body.length < 2 ^ 64)
     (h : fromBytes limit (encodeChunk 1 body) = .ok s) :
     fromBytes limit (encodeChunkWith ((chunkHash 1 body).take 4) 2 z) = .ok s ∧
       s.hash = chunkHash 1 body := by
@@ -62,7 +62,7 @@ set_option maxRecDepth 20000 in
 example :
     let body := sampleChange.drop 10
     let z : Bytes := [1, 75, 0, 180, 255] ++ body
-    (Inflate.inflate z == some body) &&
+    (Inflate.inflateExact z == some body) &&
     (match fromBytes 100 (encodeChunkWith ((chunkHash 1 body).take 4) 2 z), fromBytes 100 sampleChange with
      | .ok a, .ok b => a.hash == b.hash && a.rows == b.rows && a.rows.length == 3
      | _, _ => false) = true := by decide +kernel
